@@ -685,6 +685,10 @@ func (circuitSuite) Gen(r *rand.Rand, i int) Case {
 			if radv < 0 {
 				radv = 0
 			}
+			if r.Intn(25) == 0 {
+				radv = []int64{-5, -3000}[r.Intn(2)] // the substitute clock is set BACK while the function runs
+				tag("clock-back-in-run")
+			}
 			if to > 0 && radv >= to-2 {
 				tag("timeout-boundary")
 			}
